@@ -16,6 +16,8 @@ static void mon_cas(void* addr, uint64_t e, uint64_t d, _Bool ok, int o);
 static void mon_store(void* addr, uint64_t v, int o);
 #define XV_ON_CAS(addr, e, d, ok, order) mon_cas((void*)(addr), (uint64_t)(e), (uint64_t)(d), (ok), (order))
 #define XV_ON_STORE(addr, val, order) mon_store((void*)(addr), (uint64_t)(val), (order))
+static void mon_load(void* addr, uint64_t v, int o);
+#define XV_ON_LOAD(addr, val, order) mon_load((void*)(addr), (uint64_t)(val), (order))
 #include "xv.h"
 int xv_threw; uint64_t xv_clock, xv_rmw_old; _Bool xv_cas_ok;
 
@@ -81,9 +83,11 @@ static _Bool g_acquire_if_equal(guard_t* g, mptr* cell, mptr expected, int mo) {
   *g = 0; mon_val_ok = 0; return 0;
 }
 static void g_acquire(guard_t* g, mptr* cell, int mo) { XV_ENV(); xv_clock++; *g = *cell; }
+static void mon_reclaim(guard_t g);
 static void g_reclaim(guard_t* g) {
   _Bool ok = is_node(*g) && MP_mark(*g) == 0;
   XV_OBL("hmm.mem.safe", ok); XV_ASSUME(ok);
+  mon_reclaim(*g);
   g_retired[idx_of(*g)]++; *g = 0;
 }
 #define G_acquire_if_equal(g, cell, e, mo) g_acquire_if_equal(&(g), &(cell), (e), (mo))
@@ -169,12 +173,12 @@ static _Bool hmm_find_contract(struct hmm* self, hash_t hash, kkey_t key, size_t
 #else
 #define XV_FIND_IMPL(self, h, k, b, ip, bo) hmm_find((self), (h), (k), (b), (ip), (bo))
 #endif
-#ifdef XV_INT
 _Bool env_on;
-#endif
-#if defined(XV_INT) && !defined(XV_INT_FIND)
+#ifdef XV_INT
 #undef XV_SPURIOUS
 #define XV_SPURIOUS() (env_on && nondet_bool())      /* weak CAS fails spuriously only where interference is enabled */
+#endif
+#if defined(XV_INT) && !defined(XV_ENV_ARBITRARY)
 /* INT runs on the callers: the interference is placed between the caller's own steps; find itself runs without interference there
  * (its interference behaviour is the subject of the find_int run) */
 static _Bool xv_find_noenv(struct hmm* self, hash_t h, kkey_t k, size_t b, struct find_info* ip, int bo) {
@@ -189,13 +193,126 @@ static _Bool xv_find_noenv(struct hmm* self, hash_t h, kkey_t k, size_t b, struc
 #define XV_GOTO_RETRY goto retry
 
 /* ---- monitors ---- */
-unsigned mon_cas_count, mon_cas_ok_count; mptr* mon_cas_cell; mptr mon_cas_expected, mon_cas_desired;
+enum { MON_OFF = 0, MON_FIND, MON_INSERT, MON_ERASE_KEY, MON_ERASE_IT };
+int mon_mode;
+unsigned mon_cas_count, mon_cas_ok_count; mptr* mon_cas_cell; mptr mon_cas_expected, mon_cas_desired; _Bool mon_cas_last_ok;
+mptr* mon_ld_cell[2]; mptr mon_ld_val[2];                     /* the last two atomic loads ([1] = latest) */
+unsigned abs_find_calls; mptr abs_find_cur, abs_find_next; mptr* abs_find_prev;      /* what the latest (abstract) find returned */
+unsigned er_phase; mptr er_cur, er_succ; _Bool er_unlink_ok; unsigned er_reclaims, er_finds_after_mark; mptr mon_obs_curnext; mptr* er_prev;
+kkey_t ins_key; val_t in_v;
+static void mon_load(void* addr, uint64_t v, int o) {
+  mon_ld_cell[0] = mon_ld_cell[1]; mon_ld_val[0] = mon_ld_val[1]; mon_ld_cell[1] = (mptr*)addr; mon_ld_val[1] = (mptr)v;
+  if (mon_mode == MON_ERASE_IT && is_node(er_cur) && addr == (void*)&pool[idx_of(er_cur)].next) mon_obs_curnext = (mptr)v;
+}
 static void mon_cas(void* addr, uint64_t e, uint64_t d, _Bool ok, int o) {
   mon_cas_count++; if (ok) mon_cas_ok_count++;
-  mon_cas_cell = (mptr*)addr; mon_cas_expected = e; mon_cas_desired = d;
+  mon_cas_cell = (mptr*)addr; mon_cas_expected = e; mon_cas_desired = d; mon_cas_last_ok = ok;
+  if (mon_mode == MON_FIND) {
+    /* find's only CAS unlinks a marked node: the cell and the expected value are the ones the latest acquire_if_equal validated;
+       the new value is the successor read from cur->next after cur was seen marked (a marked next field is frozen) */
+    _Bool good = mon_val_ok && (mptr*)addr == mon_val_cell && e == mon_val_value && e != 0 && MP_mark(e) == 0 && is_node(e)
+              && mon_ld_cell[1] == &pool[idx_of(e)].next && MP_mark(mon_ld_val[1]) == 1 && d == MP_get(mon_ld_val[1])
+              && mon_ld_cell[0] == &pool[idx_of(e)].next && MP_mark(mon_ld_val[0]) == 1;
+    XV_OBL("hmm.find.commit", good);
+  }
+  if (mon_mode == MON_INSERT) {
+    /* the linking CAS: on the cell and with the expected value the latest find validated (unmarked: the predecessor is not deleted),
+       new value = the private, fully initialised node whose next is that expected value */
+    _Bool good = (mptr*)addr == mon_val_cell && mon_val_ok && e == mon_val_value && MP_mark(e) == 0 && d == W(IN) && g_alloc && !g_freed && !g_published
+              && pool[IN].next == e && pool[IN].data.value.first == ins_key;
+    XV_OBL("hmm.insert.commit", good);
+  }
+  if (mon_mode == MON_ERASE_KEY || mon_mode == MON_ERASE_IT) {
+    _Bool on_curnext = is_node(er_cur) && (mptr*)addr == &pool[idx_of(er_cur)].next;
+    if (on_curnext && er_phase == 0) {       /* marking CAS: on cur->next, expected = the unmarked value read from it, new = the same with the mark */
+      _Bool good = MP_mark(e) == 0 && d == (e | 1) && (mon_mode == MON_ERASE_KEY ? (er_cur == abs_find_cur && e == abs_find_next) : (e == mon_obs_curnext));
+      XV_OBL("hmm.erase.commit", good);
+      if (ok) { er_phase = 1; mon_obs_curnext = (mptr)d; } else mon_obs_curnext = *(mptr*)addr;
+    } else {                   /* unlinking CAS: on the validated prev cell, expected = cur (unmarked), new = the successor frozen by the mark */
+      _Bool good = (er_phase == 1 || (mon_mode == MON_ERASE_IT && er_phase == 0)) && (mptr*)addr == er_prev && e == er_cur && MP_mark(e) == 0
+                && d == MP_get(mon_obs_curnext) && MP_mark(mon_obs_curnext) == 1;
+      XV_OBL("hmm.erase.commit", good);
+      er_phase = 2; er_unlink_ok = ok;
+    }
+  }
   if (ok && MP_get(d) == W(IN)) g_published = 1;
 }
 static void mon_store(void* addr, uint64_t v, int o) { }
+static void mon_reclaim(guard_t g) {
+  if (mon_mode == MON_FIND) XV_OBL("hmm.find.commit", mon_cas_count == 1 && mon_cas_last_ok && mon_cas_expected == g);   /* mon_cas_count: per loop iteration */
+  if (mon_mode == MON_ERASE_KEY || mon_mode == MON_ERASE_IT) { XV_OBL("hmm.erase.commit", er_phase == 2 && er_unlink_ok && g == er_cur && er_reclaims == 0); er_reclaims++; }
+  if (mon_mode == MON_INSERT) XV_OBL("hmm.insert.commit", 0);
+}
+
+/* ---- INT with arbitrary interference: before every atomic step the other threads may rewrite every shared cell ---- */
+static mptr nondet_word(void) { mptr w = nondet_uptr(); XV_ASSUME(MP_get(w) == 0 || (is_node(w) && idx_of(w) < NP)); return w; }
+static mptr* nondet_cell(void) { unsigned k = nondet_uint(); XV_ASSUME(k < NB + NP); return k < NB ? &M.buckets[k] : &pool[k - NB].next; }
+static void havoc_shared(void) {
+  for (unsigned b = 0; b < NB; b++) M.buckets[b] = nondet_word();
+  /* rely: a marked next field never changes again (guaranteed by every CAS on a next field expecting an unmarked value - checked by the commit obligations);
+     the private new node is not touched by others */
+  for (unsigned i = 0; i < NP; i++) if ((i != IN || g_published) && MP_mark(pool[i].next) == 0) pool[i].next = nondet_word();
+}
+static void havoc_monitors(void) {
+  mon_cas_count = 0; mon_cas_last_ok = nondet_bool(); mon_cas_cell = nondet_cell(); mon_cas_expected = nondet_uptr(); mon_cas_desired = nondet_uptr();
+  mon_val_ok = nondet_bool(); mon_val_cell = nondet_cell(); mon_val_value = nondet_uptr();
+  mon_ld_cell[0] = nondet_cell(); mon_ld_cell[1] = nondet_cell(); mon_ld_val[0] = nondet_uptr(); mon_ld_val[1] = nondet_uptr();
+  abs_find_calls = nondet_uint(); abs_find_cur = nondet_uptr(); abs_find_next = nondet_uptr(); abs_find_prev = nondet_cell();
+}
+static _Bool fi_valid(const struct find_info* i, size_t bucket) {
+  if (bucket >= NB) return 0;
+  if (i->save == 0) return i->prev == &M.buckets[bucket];
+  return is_node(i->save) && MP_mark(i->save) == 0 && !(idx_of(i->save) == IN && !g_published) && i->prev == &pool[idx_of(i->save)].next;
+}
+static _Bool guard_valid(guard_t g) { return g == 0 || (is_node(g) && MP_mark(g) == 0 && !(idx_of(g) == IN && !g_published)); }
+#ifdef XV_ENV_ARBITRARY
+void xv_env(void) { if (env_on) havoc_shared(); }
+#endif
+/* abstract find for the INT runs of its callers: it returns SOME (prev, cur, next, save) - the interference decides which - with the
+ * guarantees run find_int proves for the real text: prev/save well-formed, cur validated by acquire_if_equal on prev, cur unmarked,
+ * next = an unmarked value read from cur->next, result true iff cur has the key */
+static _Bool hmm_find_abs(struct hmm* self, hash_t h, kkey_t k, size_t b, struct find_info* info) {
+  _Bool pre = self == &M && fi_valid(info, b);
+  XV_OBL("hmm.find.requires", pre); XV_ASSUME(pre);
+  abs_find_calls++; if (er_phase >= 1) er_finds_after_mark++;
+  havoc_shared();
+  info->prev = nondet_cell(); info->save = nondet_word(); info->cur = nondet_word(); info->next = nondet_word();
+  XV_ASSUME(fi_valid(info, b) && guard_valid(info->cur) && MP_mark(info->next) == 0);
+  if (info->cur == 0) XV_ASSUME(info->next == 0);
+  mon_val_cell = info->prev; mon_val_value = info->cur; mon_val_ok = 1;
+  abs_find_cur = info->cur; abs_find_next = info->next; abs_find_prev = info->prev;
+  if (mon_mode == MON_ERASE_KEY && er_phase == 0) { er_cur = info->cur; er_prev = info->prev; }
+  _Bool r = nondet_bool();
+  XV_ASSUME(r == (info->cur != 0 && pool[idx_of(info->cur)].data.value.first == k));
+  return r;
+}
+#define HMM_FIND_ABS(self, h, k, b, i, bo) hmm_find_abs((self), (h), (k), (b), &(i))
+
+/* ---- loop cuts (INT runs): invariants over the locals of the lowered functions ---- */
+static _Bool start_ok(mptr* start, guard_t sg, size_t bucket) {
+  return bucket < NB && ((start == &M.buckets[bucket] && sg == 0) || (is_node(sg) && MP_mark(sg) == 0 && start == &pool[idx_of(sg)].next));
+}
+#define XV_RETRY_CUT do { XV_OBL("hmm.find.commit", start_ok(start, start_guard, bucket)); __CPROVER_assume(0); } while (0)
+#define XV_INV_FIND (fi_valid(&info, bucket) && guard_valid(info.cur) && MP_mark(info.next) == 0 && start_ok(start, start_guard, bucket))
+#define XV_HAVOC_FIND info.prev = nondet_cell(); info.next = nondet_word(); info.cur = nondet_word(); info.save = nondet_word(); \
+   havoc_shared(); havoc_monitors(); for (unsigned xi = 0; xi < NP; xi++) g_retired[xi] = nondet_uint() /* XV_PREV(info) expected */
+static _Bool xv_new_content_ok(kkey_t key) { return pool[IN].data.value.first == key && (!XV_MEMO || pool[IN].data.hash == HASH_FN(key)); }
+#define XV_INV_INS (n == W(IN) && g_alloc && !g_freed && !g_published && g_alloc_count == 1 && xv_new_content_ok(key) && pool[IN].data.value.second == value \
+   && h == DATA_get_hash(pool[IN].data) && bucket < NB && fi_valid(&info, bucket) && guard_valid(info.cur) && mon_cas_ok_count == 0)
+#define XV_HAVOC_INS info.prev = nondet_cell(); info.next = nondet_word(); info.cur = nondet_word(); info.save = nondet_word(); \
+   pool[IN].next = nondet_uptr(); havoc_shared(); havoc_monitors() /* XV_PREV(info) NDEREF(n)->next expected new_guard */
+#define XV_INV_LAZY (bucket < NB && h == HASH_FN(ins_key) && fi_valid(&info, bucket) && mon_cas_ok_count == 0 && !g_freed && !g_published && \
+   (n == 0 ? (!g_alloc && g_alloc_count == 0 && g_factory_calls == 0 && pkey == &key && key == ins_key && guard_valid(info.cur)) \
+           : (n == W(IN) && g_alloc && g_alloc_count == 1 && pkey == &pool[IN].data.value.first && xv_new_content_ok(ins_key) && pool[IN].data.value.second == in_v && g_factory_calls == 1 && (info.cur == W(IN) || guard_valid(info.cur)))))
+#define XV_HAVOC_LAZY info.prev = nondet_cell(); info.next = nondet_word(); info.cur = nondet_word(); info.save = nondet_word(); \
+   n = nondet_uptr(); pkey = nondet_bool() ? &key : &pool[IN].data.value.first; pool[IN].next = nondet_uptr(); havoc_shared(); havoc_monitors(); \
+   g_alloc = nondet_bool(); g_alloc_count = nondet_uint(); g_factory_calls = nondet_uint(); key = nondet_u32(); \
+   pool[IN].data.value.first = nondet_u32(); pool[IN].data.value.second = (val_t)nondet_uptr(); pool[IN].data.hash = nondet_size() /* XV_PREV(info) NDEREF(n)->next cur */
+#define XV_INV_ERK (bucket < NB && fi_valid(&info, bucket) && guard_valid(info.cur) && er_phase == 0 && er_reclaims == 0 && er_finds_after_mark == 0 && !er_unlink_ok)
+#define XV_HAVOC_ERK info.prev = nondet_cell(); info.next = nondet_word(); info.cur = nondet_word(); info.save = nondet_word(); havoc_shared(); havoc_monitors(); \
+   er_cur = nondet_uptr(); er_prev = nondet_cell(); mon_obs_curnext = nondet_uptr()
+#define XV_INV_ERI (next == mon_obs_curnext && er_phase == 0 && er_reclaims == 0 && er_finds_after_mark == 0 && !er_unlink_ok && abs_find_calls == 0)
+#define XV_HAVOC_ERI next = nondet_word(); mon_obs_curnext = next; havoc_shared(); { unsigned xc = abs_find_calls; havoc_monitors(); abs_find_calls = xc; } /* GDEREF(pos.info.cur)->next */
 
 #include "lowered.h"
 
@@ -216,7 +333,9 @@ static mptr pre_next(unsigned i, unsigned b) { return succ_of(i, b) | (mptr)in_m
 static _Bool GE(unsigned i, hash_t h, kkey_t k) { return DATA_greater_or_equal(pool[i].data, h, k); }
 
 hash_t in_hgarbage[NP]; mptr in_ngarbage; _Bool in_xret[2];
+unsigned in_cfg_nb, in_cfg_l, in_cfg_memo;      /* the run's shape, for the native replay */
 static void choose(void) {
+  in_cfg_nb = NB; in_cfg_l = L; in_cfg_memo = XV_MEMO;
   unsigned total = 0;
   for (unsigned b = 0; b < NB; b++) { in_n[b] = nondet_uint(); XV_ASSUME(in_n[b] <= L); total += in_n[b]; }
   XV_ASSUME(total <= L);
@@ -247,7 +366,7 @@ static void install(void) {
   }
   for (unsigned x = 0; x < 2; x++) { pool[IX + x].next = in_xnext[x]; g_retired[IX + x] = in_xret[x]; }
   g_alloc = 0; g_freed = 0; g_published = 0; g_alloc_count = 0; g_factory_calls = 0;
-  mon_cas_count = 0; mon_cas_ok_count = 0; xv_clock = 0;
+  mon_cas_count = 0; mon_cas_ok_count = 0; xv_clock = 0; mon_mode = MON_OFF; abs_find_calls = 0; er_phase = 0; er_reclaims = 0; er_finds_after_mark = 0; er_unlink_ok = 0;
 }
 static void build(void) {
   choose(); install();
@@ -403,11 +522,11 @@ void h_map_to_bucket(void) {
 }
 
 /* ---- internal find from any start an iterator / a retry can hand in ------------------------------------------------------- */
-unsigned in_b, in_start; kkey_t in_k;    /* in_start: 0 = bucket head, 1 = linked node in_s, 2 = unlinked node IY */
+unsigned in_b, in_start; kkey_t in_k; hash_t in_kh;    /* in_start: 0 = bucket head, 1 = linked node in_s, 2 = unlinked node IY */
 unsigned in_s;
 void h_find(void) {
   build(); exp_init(); snapshot();
-  in_k = nondet_u32(); hash_t h = HASH_FN(in_k);
+  in_k = nondet_u32(); hash_t h = HASH_FN(in_k); in_kh = h;
   in_b = utils_modulo(h, NB);
   unsigned b = in_b;
   struct find_info info; info.next = nondet_uptr(); info.cur = nondet_uptr();
@@ -458,7 +577,7 @@ void h_find(void) {
 unsigned in_which;
 void h_lookup(void) {
   build(); exp_init(); snapshot();
-  in_k = nondet_u32(); hash_t h = HASH_FN(in_k); unsigned b = utils_modulo(h, NB); in_b = b;
+  in_k = nondet_u32(); hash_t h = HASH_FN(in_k); in_kh = h; unsigned b = utils_modulo(h, NB); in_b = b;
   _Bool live = 0; for (unsigned i = 0; i < L; i++) if (i >= lo(b) && i < hi(b) && !in_mark[i] && in_key[i] == in_k) live = 1;
   unsigned q = spec_pos(b, lo(b), h, in_k); exp_remove_marked(lo(b), q); unsigned pred = spec_pred(lo(b), q);
   in_which = nondet_uint(); XV_ASSUME(in_which <= 1);
@@ -483,7 +602,7 @@ val_t in_v;
 static val_t stub_value_factory(void) { g_factory_calls++; return in_v; }
 void h_insert(void) {
   build(); exp_init(); snapshot();
-  in_k = nondet_u32(); in_v = (val_t)nondet_uptr(); hash_t h = HASH_FN(in_k); unsigned b = utils_modulo(h, NB); in_b = b;
+  in_k = nondet_u32(); in_v = (val_t)nondet_uptr(); hash_t h = HASH_FN(in_k); in_kh = h; unsigned b = utils_modulo(h, NB); in_b = b;
   unsigned q = spec_pos(b, lo(b), h, in_k); exp_remove_marked(lo(b), q); unsigned pred = spec_pred(lo(b), q);
   _Bool present = q < hi(b) && in_key[q] == in_k;
   if (!present) { exp_ins = 1; exp_ins_bucket = b; exp_ins_at = q; }
@@ -526,7 +645,7 @@ void h_insert(void) {
 /* ---- erase(key) ----------------------------------------------------------------------------------------------------------------- */
 void h_erase_key(void) {
   build(); exp_init(); snapshot();
-  in_k = nondet_u32(); hash_t h = HASH_FN(in_k); unsigned b = utils_modulo(h, NB); in_b = b;
+  in_k = nondet_u32(); hash_t h = HASH_FN(in_k); in_kh = h; unsigned b = utils_modulo(h, NB); in_b = b;
   unsigned q = spec_pos(b, lo(b), h, in_k); exp_remove_marked(lo(b), q);
   _Bool present = q < hi(b) && in_key[q] == in_k;
   if (present) { exp_removed[q] = 1; exp_mark[q] = 1; }
@@ -635,7 +754,9 @@ void h_inc(void) {
   if (in_icur == 1 && in_ip < hi(b) && !in_mark[in_ip] && in_key[in_ip] == in_key[IX]) XV_CANARY("inc.key_reinserted");
   if (!fast && in_isave == 1 && it_from > lo(b) && exp_cur != 0 && exp_bucket == b) XV_CANARY("inc.slow_from_save");
   if (in_isave == 2) XV_CANARY("inc.save_unlinked");
+#if L >= 3
   if (in_isave == 1 && in_icur == 0 && in_is + 1 < in_ic) XV_CANARY("inc.successor_of_save_changed");
+#endif
   if (exp_cur == 0) XV_CANARY("inc.to_end");
 #if NB > 1
   if (exp_cur != 0 && exp_bucket != b) XV_CANARY("inc.to_next_bucket");
@@ -703,7 +824,7 @@ void h_begin(void) {
  * INT: operator++ with one step of another handle (insert a node anywhere / mark a node / unlink a marked node) placed
  * between any two of its own atomic steps.
  * ===================================================================================================================== */
-#if defined(XV_INT) && !defined(XV_INT_FIND)
+#if defined(XV_INT) && !defined(XV_ENV_ARBITRARY)
 unsigned env_budget; _Bool env_inserted, env_did_mark, env_did_unlink; unsigned env_zb, env_zpos, env_marked, env_unlinked;
 void xv_env(void) {
   if (!env_on || env_budget == 0 || !nondet_bool() || !shape_intact()) return;
@@ -761,5 +882,88 @@ void h_inc_int(void) {
   if (env_did_mark && in_icur == 0 && env_marked == in_ic) XV_CANARY("inc_int.cur_marked_meanwhile");
   if (env_did_unlink && in_icur == 0 && env_unlinked == in_ic + 1) XV_CANARY("inc_int.successor_unlinked");
   if (env_budget == 1) XV_CANARY("inc_int.no_interference");
+}
+#endif
+
+/* =====================================================================================================================
+ * INT with arbitrary interference (every shared cell may change before every atomic step): commit obligations.
+ * Retry loops are cut by the invariants XV_INV_*; the monitors in mon_cas / mon_reclaim check every CAS and reclaim.
+ * ===================================================================================================================== */
+#ifdef XV_ENV_ARBITRARY
+static void int_setup(int mode) { choose(); install(); havoc_shared(); mon_mode = mode; mon_val_ok = 0; mon_val_cell = 0; mon_val_value = 0; mon_ld_cell[0] = 0; mon_ld_cell[1] = 0; }
+static void int_start(struct find_info* info, unsigned b) {      /* any start find accepts */
+  info->prev = nondet_cell(); info->save = nondet_word(); info->cur = nondet_word(); info->next = nondet_uptr();
+  XV_ASSUME(fi_valid(info, b) && guard_valid(info->cur) && (info->cur == 0 || info->cur != info->save));
+}
+void h_find_int(void) {
+  int_setup(MON_FIND); g_alloc = 1; g_published = 1;      /* all NP nodes are ordinary shared nodes here */
+  kkey_t k = nondet_u32(); hash_t h = HASH_FN(k); unsigned b = nondet_uint(); XV_ASSUME(b < NB);
+  struct find_info info; int_start(&info, b);
+  env_on = 1;
+  _Bool r = hmm_find_int(&M, h, k, b, &info, 0);
+  env_on = 0;
+  /* only the returning paths arrive here (the cut loop / retry edges end in assume(false) after their invariant was checked) */
+  XV_OBL("hmm.find.commit", fi_valid(&info, b) && guard_valid(info.cur));
+  XV_OBL("hmm.find.commit", mon_val_ok && mon_val_cell == info.prev && mon_val_value == info.cur);       /* cur was read from prev, validated by acquire_if_equal */
+  if (info.cur == 0) { XV_OBL("hmm.find.commit", !r); XV_CANARY("find_int.end"); }
+  else {
+    /* decision on a node that was still linked from prev after its own next was read unmarked */
+    XV_OBL("hmm.find.commit", mon_ld_cell[1] == info.prev && mon_ld_val[1] == info.cur && mon_ld_cell[0] == &pool[idx_of(info.cur)].next && mon_ld_val[0] == info.next && MP_mark(info.next) == 0);
+    XV_OBL("hmm.find.commit", GE(idx_of(info.cur), h, k) && r == (pool[idx_of(info.cur)].data.value.first == k));
+    XV_OBL("hmm.find.commit", mon_cas_count == 0);      /* no CAS in the iteration that returns */
+    if (r) XV_CANARY("find_int.found"); else XV_CANARY("find_int.greater");
+  }
+}
+void h_insert_int(void) {
+  int_setup(MON_INSERT);
+  ins_key = nondet_u32(); in_v = (val_t)nondet_uptr(); in_which = nondet_uint(); XV_ASSUME(in_which <= 1);
+  unsigned b = utils_modulo(HASH_FN(ins_key), NB);
+  env_on = 1; struct pair_ib r;
+  if (in_which == 0) r = hmm_emplace_or_get_int(&M, ins_key, in_v);
+  else { xv_cap_value_factory = stub_value_factory; r = hmm_do_get_or_emplace_lazy_int(&M, ins_key, hmm_goel_node_factory); }
+  env_on = 0;
+  XV_OBL("hmm.insert.commit", r.first.bucket == b && r.first.map == &M && fi_valid(&r.first.info, b));
+  if (r.second) {      /* inserted: this very call's CAS linked the node (every CAS was checked by the monitor) */
+    XV_OBL("hmm.insert.commit", mon_cas_ok_count == 1 && mon_cas_last_ok && g_published && !g_freed && g_alloc_count == 1);
+    XV_OBL("hmm.insert.commit", r.first.info.cur == W(IN) && r.first.info.prev == mon_cas_cell);
+    XV_OBL("hmm.insert.commit", pool[IN].data.value.first == ins_key && pool[IN].data.value.second == in_v);
+    XV_CANARY("insert_int.inserted");
+  } else {             /* not inserted: the element returned was validated by find and has the key; nothing was published; the node is gone */
+    XV_OBL("hmm.insert.commit", mon_cas_ok_count == 0 && !g_published && (g_alloc ? g_freed : 1));
+    XV_OBL("hmm.insert.commit", r.first.info.cur == abs_find_cur && abs_find_cur != 0 && pool[idx_of(abs_find_cur)].data.value.first == ins_key);
+    if (in_which == 0) XV_OBL("hmm.insert.commit", g_alloc && g_freed);
+    XV_CANARY("insert_int.present");
+    if (in_which == 1 && !g_alloc) XV_CANARY("insert_int.lazy_never_built");
+    if (in_which == 1 && g_alloc) XV_CANARY("insert_int.lazy_built_then_lost");
+  }
+}
+void h_erase_key_int(void) {
+  int_setup(MON_ERASE_KEY);
+  kkey_t k = nondet_u32();
+  env_on = 1;
+  _Bool r = hmm_erase_key_int(&M, k);
+  env_on = 0;
+  if (r) {   /* true only after this call's marking CAS succeeded; the node is retired by this call iff its unlink CAS succeeded, else find is re-run */
+    XV_OBL("hmm.erase.commit", er_phase == 2 && er_cur != 0 && pool[idx_of(er_cur)].data.value.first == k);
+    XV_OBL("hmm.erase.commit", er_unlink_ok ? (er_reclaims == 1 && er_finds_after_mark == 0) : (er_reclaims == 0 && er_finds_after_mark == 1));
+    if (er_unlink_ok) XV_CANARY("erase_key_int.unlinked"); else XV_CANARY("erase_key_int.left_to_find");
+  } else { XV_OBL("hmm.erase.commit", er_phase == 0 && er_reclaims == 0 && mon_cas_count == 0); XV_CANARY("erase_key_int.false"); }
+}
+void h_erase_it_int(void) {
+  int_setup(MON_ERASE_IT);
+  struct iterator it; unsigned b = nondet_uint(); XV_ASSUME(b < NB);
+  it.map = &M; it.bucket = b; int_start(&it.info, b);
+  XV_ASSUME(it.info.cur != 0);
+  er_cur = it.info.cur; er_prev = it.info.prev; mon_obs_curnext = nondet_uptr();
+  struct iterator pre = it;
+  env_on = 1;
+  struct iterator r = hmm_erase_it_int(&M, it);
+  env_on = 0;
+  XV_OBL("hmm.iter.erase.commit", er_phase == 2 && MP_mark(mon_obs_curnext) == 1);      /* cur->next was seen marked (by this call or another) before the unlink attempt */
+  XV_OBL("hmm.iter.erase.commit", er_unlink_ok ? (er_reclaims == 1 && abs_find_calls == 0) : (er_reclaims == 0 && abs_find_calls == 1));
+  XV_OBL("hmm.iter.erase.commit", r.map == &M);     /* that the successor differs from cur is a list-shape fact (SEQ: hmm.iter.erase.exact) */
+  if (er_unlink_ok) { XV_OBL("hmm.iter.erase.commit", r.info.cur == MP_get(mon_obs_curnext) || (MP_get(mon_obs_curnext) == 0 && r.info.save == 0)); XV_CANARY("erase_it_int.unlinked"); }
+  else { XV_OBL("hmm.iter.erase.commit", r.info.cur == abs_find_cur || (abs_find_cur == 0 && r.info.save == 0)); XV_CANARY("erase_it_int.left_to_find"); }
+  if (mon_cas_count == 1) XV_CANARY("erase_it_int.already_marked");
 }
 #endif
